@@ -171,6 +171,28 @@ CLAIMED.update({
         ref="DESIGN.md §5 C19", note=NOTE_COMMON + " Scalar (non time-series) parameters with defaults and the compiled-in static-node candidates are not exercised; incomparable candidates are only subject to order independence."),
 })
 
+CLAIMED.update({
+    "C16": dict(
+        text=("Schedule-steered exploration of the push queue: real-time runs with 1-4 producer threads following generated phase scripts "
+              "(free-running with jitter, consumer provably latched inside an evaluation, loop idle-waiting after a measured drain, racing "
+              "request_stop, after run() returned), queue / burst / conflating policies, capacities unbounded/1/2/5, blocking and "
+              "non-blocking sends; every send and delivery carries a global atomic sequence. The history is checked for exactly-once in-order "
+              "delivery per producer, happens-before across producers, one value (or one in-order tuple) per strictly later cycle, no loss "
+              "before the stop race, pending <= capacity at every sample, the exact acceptance count while latched, no illegitimate "
+              "refusal, nothing accepted after stop."),
+        technique="property-based testing over generated thread phase scripts (latches, jitter) with history invariants",
+        ref="DESIGN.md §5 C16", note=NOTE_COMMON + " Interleavings are steered, not enumerated: a lost wake-up that needs a window of a few instructions may escape. The only timing bound asserted is a 20 s watchdog."),
+    "C17": dict(
+        text=("Exploration of the real-time loop: millisecond-long runs with self-scheduling timers (relative requests, tagged chains, "
+              "wall-clock alarms incl. already-due ones), a sleeping node that makes the graph lag, pushes while evaluating and while "
+              "waiting with a 1 h wait slice, ending by end_time or by request_stop from another thread. From (evaluation_time, wall clock) "
+              "logged by every node: cycle times strictly increase inside the window, wall clock >= evaluation_time, every relative request "
+              "is evaluated at exactly its time and none is dropped (pending-request model), booked alarms due before the end are delivered, "
+              "pushes during the wait are delivered, run() returns within the watchdog."),
+        technique="property-based testing of real-time histories: pending-request model + never-early / delivered-late inequalities",
+        ref="DESIGN.md §5 C17", note=NOTE_COMMON + " Bounded liveness only (20 s watchdog, lateness always allowed); OS schedules are sampled, not enumerated."),
+})
+
 NOT_YET = {}
 
 
